@@ -93,10 +93,13 @@ def site_classes(ctx, body, b, operands):
         cl |= classes_of_slice(ctx, body, O.slice_back(body, t["op"]))
     return cl
 
+import props.anchors as anchors
+
 
 def run(ctx, chk):
     O, P, L = ctx.O, ctx.P, ctx.L
     # ---------------- E1
+    anchors.check(ctx, chk, ['update_stored_len', 'stored_len', 'create_reader', 'reader_new_mmap', 'truncate_write', 'pages_push'])
     n_sites = 0
     by_kind = {}
     param_ctor = set()
